@@ -67,6 +67,18 @@ func (e *Env) Set(key string, val Object) error {
 	return nil
 }
 
+// Define binds a name in this scope only. Unlike Set, it shadows a
+// variable of the enclosing scopes whatever its type is
+func (e *Env) Define(key string, val Object) error {
+	if key == "loop" {
+		return errors.New(fail.ErrLoopVariableIsReserved)
+	}
+
+	e.store[key] = val
+
+	return nil
+}
+
 func (e *Env) SetLoopVar(pairs map[string]Object) {
 	e.store["loop"] = &Obj{Pairs: pairs}
 }
